@@ -21,7 +21,7 @@ def run_one(patch, props=None, tier="quick"):
         r = subprocess.run(["git", "-C", dst, "apply", patch], capture_output=True, text=True)
         if r.returncode != 0:
             return name, "patch-does-not-apply", r.stderr.strip()
-        env = dict(os.environ, GOFLAGS="-mod=mod", GOPROXY="off", GOSUMDB="off", GOTOOLCHAIN="local", VERIF_REPO=dst)
+        env = dict(os.environ, GOFLAGS="-mod=mod", GOPROXY="off", GOSUMDB="off", GOTOOLCHAIN="local", VERIF_REPO=dst, VERIF_NO_RETRY="1")  # (a mutant is expected to fail: no second attempts)
         b = subprocess.run(["go", "build", "./..."], cwd=dst, env=env, capture_output=True, text=True)
         if b.returncode != 0:
             return name, "does-not-compile", b.stderr[-500:]
